@@ -21,7 +21,11 @@ import threading as _threading
 
 from . import import_repo
 
-MUTATING = ('mkdir', 'makedirs', 'rename', 'replace', 'rmdir', 'remove',
+# Calls FileBuilder makes "to create directories, move files aside or write
+# the cache" (C14).  os.remove is deliberately not a fault point: removal of a
+# failed output is documented as best effort (errors are logged and skipped),
+# and C14 does not list it.
+MUTATING = ('mkdir', 'makedirs', 'rename', 'replace', 'rmdir',
             'gzopen_w', 'gzwrite', 'gzclose', 'mkdtemp')
 
 ERRNOS = {
